@@ -1,0 +1,25 @@
+//go:build verif
+// +build verif
+
+package runner
+
+import (
+	"sync/atomic"
+)
+
+// Verification hooks (build tag "verif"). Without the tag verifAt is an empty
+// function and none of this is compiled.
+
+var verifHandler atomic.Value // func(point string, args ...interface{})
+
+// VerifSetHandler installs the function called at every hook point of this package.
+func VerifSetHandler(f func(point string, args ...interface{})) {
+	verifHandler.Store(f)
+}
+
+func verifAt(point string, args ...interface{}) {
+	if f, ok := verifHandler.Load().(func(string, ...interface{})); ok && f != nil {
+		f(point, args...)
+	}
+}
+
